@@ -320,4 +320,10 @@ def rule_d(ctx):
             'an iteration can complete without removing the entry it handled (or removes another key)')
 
 
-RULES = [('C07.a', rule_a), ('C07.b', rule_b), ('C07.c', rule_c), ('C07.d', rule_d)]
+def rule_e(ctx):
+    """Resolved at least once when the application closes the client (shared C11.h)."""
+    from .c11 import rule_h
+    rule_h(ctx)
+
+
+RULES = [('C07.a', rule_a), ('C07.b', rule_b), ('C07.c', rule_c), ('C07.d', rule_d), ('C11.h', rule_e)]
